@@ -11,6 +11,7 @@ mod tuples;
 mod own;
 mod q;
 mod sym;
+mod symdrv;
 mod alg;
 mod mat;
 mod xform;
@@ -39,6 +40,7 @@ fn main() {
         ("replay", "iterpair") => iter::replay_pair(rest),
         ("drive", "ops") => ops::drive(rest),
         ("drive", "own") => own::drive(rest),
+        ("drive", "sym") => symdrv::drive_sym(rest),
         ("drive", "products") => mat::drive_products(rest),
         ("drive", "detinv") => mat::drive_detinv(rest),
         ("drive", "rot") => xform::drive_rot(rest),
